@@ -9,7 +9,7 @@
 (* <<"fail", clause>> naming the first clause the observation falsifies.   *)
 (* These operators are the only source of VIOLATION lines.                 *)
 (***************************************************************************)
-EXTENDS Integers, Sequences, FiniteSets, BigNat, Notes, Tempo
+EXTENDS Integers, Sequences, FiniteSets, BigNat, Notes, Tempo, FramingP
 
 \* first failing clause of a sequence of <<name, bool>> pairs
 RECURSIVE FirstFail(_)
@@ -167,6 +167,67 @@ C15V(r) ==
         \A k \in DOMAIN r.qs : r.qs[k].t < 0 => r.qs[k].raised = "ValueError">>
   >>)
 
+(***************************** C06 *****************************************)
+\* the .chart format's own table of instrument-section names (Moonscraper), not the library's enums
+InstOf == [Single |-> "GUITAR", DoubleGuitar |-> "GUITAR_COOP", DoubleBass |-> "BASS", DoubleRhythm |-> "RHYTHM",
+           Keyboard |-> "KEYS", Drums |-> "DRUMS", GHLGuitar |-> "GHL_GUITAR", GHLBass |-> "GHL_BASS",
+           GHLCoop |-> "GHL_COOP", GHLRhythm |-> "GHL_RHYTHM"]
+DiffOf == [Easy |-> "EASY", Medium |-> "MEDIUM", Hard |-> "HARD", Expert |-> "EXPERT"]
+
+RangeOf(sq) == { sq[k] : k \in DOMAIN sq }
+
+\* the note lines (tick, lane) among the body tokens lo..hi of a framed file tail
+RECURSIVE BodyNotes(_, _, _, _)
+BodyNotes(file, ticks, lo, hi) ==
+  IF lo > hi THEN <<>>
+  ELSE (IF file[lo] = "b1" THEN << <<ticks[lo], 0>> >> ELSE IF file[lo] = "b2" THEN << <<ticks[lo], 1>> >> ELSE <<>>)
+       \o BodyNotes(file, ticks, lo + 1, hi)
+
+C06V(r) ==
+  IF r.kind = "frame" THEN
+    LET secs == SectionsOf(r.file) IN
+    IF ~WellFormedFile(r.file) THEN Skip("file-not-well-formed")
+    ELSE FirstFail(<<
+      <<"well-formed-file-parses", r.outcome = "chart">>,
+      <<"each-track-parser-receives-exactly-its-body-lines",
+          \A k \in DOMAIN secs : secs[k].tag \in {"T1", "T2"} =>
+             \E j \in DOMAIN r.tr : r.tr[j].tag = secs[k].tag
+                                    /\ r.tr[j].notes = BodyNotes(r.file, r.ticks, secs[k].lo, secs[k].hi)>>,
+      <<"no-track-without-a-section", \A j \in DOMAIN r.tr : \E k \in DOMAIN secs : secs[k].tag = r.tr[j].tag>>,
+      <<"unrecognised-section-reported", (\E k \in DOMAIN secs : secs[k].tag = "U") => "U" \in RangeOf(r.warned)>>
+    >>)
+  ELSE IF r.kind = "route" THEN
+    FirstFail(<<
+      <<"file-with-these-headers-parses", r.outcome = "chart">>,
+      <<"one-track-per-header", Len(r.obs) = Len(r.present)>>,
+      <<"header-routed-to-its-instrument-difficulty-key-and-label",
+          \A k \in DOMAIN r.present : LET d == r.present[k][1]  sfx == r.present[k][2] IN
+             \E j \in DOMAIN r.obs : LET o == r.obs[j] IN
+                /\ o.inst = InstOf[sfx] /\ o.diff = DiffOf[d]
+                /\ o.tinst = o.inst /\ o.tdiff = o.diff
+                /\ o.label = d \o sfx
+                /\ o.ticks = r.present[k][3]>>
+    >>)
+  ELSE IF r.kind = "feed" THEN
+    \* r.want / r.got: per section, the abstract items written between its braces / the items observed
+    FirstFail(<<
+      <<"file-parses", r.outcome = "chart">>,
+      <<"same-sections", { r.want[k].sec : k \in DOMAIN r.want } = { r.got[k].sec : k \in DOMAIN r.got }>>,
+      <<"each-parser-receives-exactly-its-body-lines",
+          \A k \in DOMAIN r.want : \A j \in DOMAIN r.got :
+              r.want[k].sec = r.got[j].sec => r.want[k].items = r.got[j].items>>
+    >>)
+  ELSE IF r.kind = "same" THEN
+    FirstFail(<< <<r.what, r.a = r.b>> >>)
+  ELSE IF r.kind = "unknown" THEN
+    FirstFail(<<
+      <<"unrecognised-sections-ignored", r.a = r.b>>,
+      <<"unrecognised-sections-reported", RangeOf(r.inserted) \subseteq RangeOf(r.warned)>>
+    >>)
+  ELSE IF r.kind = "missing" THEN
+    FirstFail(<< <<"missing-required-section-rejected-with-ValueError", r.raised = "ValueError">> >>)
+  ELSE <<"fail", "unknown-record-kind">>
+
 (***************************** C08 *****************************************)
 \* r.kind = "B":  r.nd digits of n, r.m / r.e the observed tempo as m * 2^e (m the 53-bit significand)
 \* "the nearest float": |m * 2^e - n/1000| <= half an ulp = 2^e / 2, i.e. |1000 m 2^e - n| <= 500 * 2^e
@@ -217,6 +278,7 @@ VerdictOf(p, r) ==
     [] p = "C04" -> C04V(r)
     [] p = "C05" -> C05V(r)
     [] p = "C08" -> C08V(r)
+    [] p = "C06" -> C06V(r)
     [] p = "C01" -> C01V(r)
     [] p = "C11" -> C11V(r)
     [] p = "C12" -> C12V(r)
